@@ -86,8 +86,8 @@ class Stats:
         h = h64(keyobj)
         new = h not in self.nontrivial
         self.nontrivial.add(h)
-        if new and sample is not None and len(self.samples) < self.max_samples:
-            # spread samples: take every few
+        if new and sample is not None and len(self.nontrivial) in (2, 8, 25, 60, 120, 250, 500, 1000):
+            # spread samples over the run: Hypothesis starts with the simplest cases
             self.samples.append(short(sample))
         return new
 
